@@ -250,6 +250,46 @@ func storedSpecials(m *big.Int) []*big.Int {
 		}
 	}
 
+	for _, x := range ConfusableStored(m) {
+		add(x)
+	}
+
+	return out
+}
+
+// ConfusableStored returns stored values that are a constant of the arithmetic (the modulus, modulus-1, the stored forms of
+// 1 and of R) with its limbs or bytes in another order: what a hand-written comparison against that constant matches when
+// the constant was typed in big-endian word order, or converted with the wrong endianness.
+func ConfusableStored(m *big.Int) []*big.Int {
+	var out []*big.Int
+
+	consts := []*big.Int{m, addI(m, -1), oracle.FromLimbs(oracle.ToMont(bi(1), m)), oracle.FromLimbs(oracle.ToMont(oracle.Mod(oracle.R, m), m)), new(big.Int).Sub(two256, m)}
+
+	for _, cst := range consts {
+		l := oracle.Limbs(cst)
+		perms := [][4]uint64{{l[3], l[2], l[1], l[0]}, {l[1], l[2], l[3], l[0]}, {l[3], l[0], l[1], l[2]}, {l[1], l[0], l[3], l[2]}}
+
+		// byte-reversed
+		b := oracle.Bytes32(cst)
+		for i, j := 0, len(b)-1; i < j; i, j = i+1, j-1 {
+			b[i], b[j] = b[j], b[i]
+		}
+
+		// 32-bit halves of every limb swapped
+		var hs [4]uint64
+		for i := range l {
+			hs[i] = l[i]<<32 | l[i]>>32
+		}
+
+		perms = append(perms, oracle.Limbs(new(big.Int).SetBytes(b)), hs)
+
+		for _, q := range perms {
+			if x := oracle.FromLimbs(q); x.Cmp(cst) != 0 && x.Sign() > 0 && x.Cmp(m) < 0 {
+				out = append(out, x)
+			}
+		}
+	}
+
 	return out
 }
 
